@@ -758,6 +758,11 @@ impl Family for HistFamily {
     super::set_current(None);
     let hist = super::take_hist();
     let restore = RESTORE.with(|r| r.borrow_mut().take());
+    let mut out = out;
+    super::cache_reach(&hist, &mut out);
+    if restore.is_some() {
+      *out.probes.entry("reach_rebuilt_from_snapshot").or_insert(0) += 1;
+    }
     if std::env::var("VERIF_DUMP").is_ok() {
       for (i, e) in hist.evs.iter().enumerate() {
         if restore.as_ref().map(|r| r.before_ev == i).unwrap_or(false) {
